@@ -1348,10 +1348,12 @@ fn c16(bits: &[bool], tlen: usize, fill: &str) -> String {
         }
         // unpack
         if n <= 65535 {
-            let mut out = vec![false; n];
-            match catch(|| unpack_coils(&tgt[..need], n as u16, &mut out)) {
-                Some(Ok(())) if out == bits => {}
-                o => return Err(format!("unpack_coils of the packed bytes gives {o:?} / wrong bits")),
+            for prior in [false, true] {
+                let mut out = vec![prior; n + 2];
+                match catch(|| unpack_coils(&tgt[..need], n as u16, &mut out)) {
+                    Some(Ok(())) if out[..n] == *bits && out[n..] == [prior, prior] => {}
+                    o => return Err(format!("unpack_coils of the packed bytes into a destination previously all {prior} gives {o:?} / wrong bits")),
+                }
             }
             // short source / short output are errors, not panics
             if need >= 1 {
@@ -1387,9 +1389,26 @@ fn c16(bits: &[bool], tlen: usize, fill: &str) -> String {
             }
         }
         match catch(|| c.into_iter().take(c.len() + 2).collect::<Vec<bool>>()) {
-            Some(l) if l == bits => Ok(()),
-            o => Err(format!("iteration yields {:?} items / wrong bits", o.map(|l| l.len()))),
+            Some(l) if l == bits => {}
+            o => return Err(format!("iteration yields {:?} items / wrong bits", o.map(|l| l.len()))),
         }
+        // iterator adaptors must agree with indexing, also for huge arguments and after items were consumed
+        for i in [0usize, 1, n - 1, n, n + 1, 65536, usize::MAX / 2, usize::MAX - 1, usize::MAX] {
+            let want = if i < n { Some(bits[i]) } else { None };
+            if catch(|| c.into_iter().nth(i)) != Some(want) {
+                return Err(format!("into_iter().nth({i}) gives {:?}, expected {want:?}", catch(|| c.into_iter().nth(i))));
+            }
+            let want1 = i.checked_add(1).filter(|j| *j < n).map(|j| bits[j]);
+            let got1 = catch(|| {
+                let mut it = c.into_iter();
+                it.next();
+                it.nth(i)
+            });
+            if got1 != Some(want1) {
+                return Err(format!("after one next(), nth({i}) {}, expected {want1:?}", match got1 { None => "panicked".to_string(), Some(x) => format!("gives {x:?}") }));
+            }
+        }
+        Ok(())
     })();
     verdict("-", r)
 }
